@@ -402,6 +402,8 @@ def gen_C02(g, tier):
         k = g.randint(1, 20)
         seq = [g.choice(bas)[1] for _ in range(k)]
         cs.append(Case('basis.seq %d %s' % (k, ' '.join(seq)), 'cmp', 'basis-sequence'))
+        seq2 = [x for b in seq for x in ([b, 'bad'] if g.random() < 0.3 else [b])]
+        cs.append(Case('basis.seq %d %s' % (len(seq2), ' '.join(seq2)), 'cmp', 'basis-sequence-with-refused-settings'))
     # histories that contain refused settings (set_basis throws for the enumerator Elliptical and for unknown codes): the two
     # directions of the conversion must stay mutually consistent, in whatever basis the object is left
     named = [b for t, b in bas if t != 'ell']; ells = [b for t, b in bas if t == 'ell']
